@@ -236,8 +236,10 @@ func (e *Enc) convert(fr *Frame, st *State, x *ssa.Convert) *State {
 	case fs == "Str" && ts == "Slice": // []byte(s)
 		r := e.alloc(fr, &st, x, "cv")
 		e.setVal(fr, x, fmt.Sprintf("(mk_Slice %s 0 (strlen %s) (strlen %s))", r, v, v))
-	case fs == "Slice" && ts == "Str": // string(b)
-		n := e.freeVal(fr, x)
+	case fs == "Slice" && ts == "Str": // string(b): a function of the slice and the heap it is read in
+		told, gate := e.heapTokensH(st, []string{v}, []types.Type{from}, []string{e.elemHeap(from.Underlying().(*types.Slice).Elem())})
+		e.d.decl("bytes2str", "(Slice Int Int) Str")
+		n := e.setVal(fr, x, "(bytes2str "+v+" "+told+" "+gate+")")
 		e.assume(fmt.Sprintf("(= (strlen %s) (slen %s))", n, v))
 	case fs == "Int" && ts == "Str": // string(rune)
 		n := e.freeVal(fr, x)
@@ -478,8 +480,11 @@ func (e *Enc) call(fr *Frame, st *State, c *ssa.Call) *State {
 	if callee == nil {
 		fv := e.val(fr, cc.Value)
 		e.addOb(fr, "SAFE", "nil", c.Pos(), text, "(not (= "+fv+" 0))", false)
-		// unknown code: may write anything reachable from its closure; it is not this function's write
-		st = e.havocCall(fr, st, c, true)
+		// a function value: either a closure created inside hcl-lang (its writes are accounted for where it
+		// was created and at every opaque call after it escaped, see closureEffects) or code supplied from
+		// outside (hooks), which is assumed to write nothing that existed before the call
+		e.usedTrusted["function values supplied from outside hcl-lang (hooks) write nothing that existed before the call"] = true
+		st = e.havocCall(fr, st, c, false)
 		return st
 	}
 	if mc, ok := cc.Value.(*ssa.MakeClosure); ok {
@@ -499,7 +504,7 @@ func (e *Enc) call(fr *Frame, st *State, c *ssa.Call) *State {
 		if ct := e.spec.contractFor(callee); ct != nil {
 			return e.callContract(fr, st, c, callee, ct, args)
 		}
-		e.ufResult(fr, c, e.readerName(callee, st), args, cc.Args)
+		e.readerResult(fr, c, e.readerName(callee, st), st, args, cc.Args)
 		return st
 	}
 	if ct := e.spec.contractFor(callee); ct != nil {
@@ -534,6 +539,7 @@ func (e *Enc) call(fr *Frame, st *State, c *ssa.Call) *State {
 		return st
 	}
 	st = e.havocCall(fr, st, c, false)
+	st = e.outParams(fr, st, c)
 	e.resultFacts(fr, c, callee)
 	if name == "context.WithValue" && len(args) == 3 {
 		// trusted: the derived context answers val for key and what the parent answers for every other key
@@ -666,11 +672,179 @@ func (e *Enc) olderResults(fr *Frame, c *ssa.Call, st *State) {
 }
 
 func (e *Enc) ufResult(fr *Frame, c *ssa.Call, fn string, args []string, argVals []ssa.Value) {
-	ts := e.resultTypes(c)
 	var sorts []string
 	for _, a := range argVals {
 		sorts = append(sorts, e.d.sortOf(a.Type()))
 	}
+	e.ufResultS(fr, c, fn, args, sorts)
+}
+
+// readerResult: the result of a read-only function: an uninterpreted function of its arguments, of the
+// version of pre-existing memory and - unless every reference among the arguments is old - of the
+// version of the memory allocated by the current function.
+func (e *Enc) readerResult(fr *Frame, c *ssa.Call, fn string, st *State, args []string, argVals []ssa.Value) {
+	var sorts []string
+	var ts []types.Type
+	for _, a := range argVals {
+		sorts = append(sorts, e.d.sortOf(a.Type()))
+		ts = append(ts, a.Type())
+	}
+	var reads []string
+	if callee := c.Common().StaticCallee(); callee != nil {
+		reads = e.readHeaps(callee)
+	}
+	told, gate := e.heapTokensH(st, args, ts, reads)
+	e.ufResultS(fr, c, fn, append(append([]string{}, args...), told, gate), append(sorts, "Int", "Int"))
+}
+
+func (e *Enc) heapTokens(st *State, args []string, ts []types.Type) (string, string) {
+	return e.heapTokensH(st, args, ts, nil)
+}
+
+// heapTokensH: reads lists the heaps the function reads (nil: unknown, any heap).
+func (e *Enc) heapTokensH(st *State, args []string, ts []types.Type, reads []string) (string, string) {
+	var conds []string
+	unknown := false
+	var walk func(t types.Type, term string, depth int)
+	walk = func(t types.Type, term string, depth int) {
+		switch u := t.Underlying().(type) {
+		case *types.Pointer, *types.Map, *types.Signature, *types.Chan:
+			conds = append(conds, "(< "+term+" A0)")
+		case *types.Slice:
+			conds = append(conds, "(< (sarr "+term+") A0)")
+		case *types.Interface:
+			e.d.decl("ptrtag", "(Int) Bool")
+			conds = append(conds, "(or (not (ptrtag (itag "+term+"))) (< (ival "+term+") A0))")
+		case *types.Struct:
+			if depth > 2 {
+				unknown = true
+				return
+			}
+			for i := 0; i < u.NumFields(); i++ {
+				walk(u.Field(i).Type(), sel(t, u, i, term), depth+1)
+			}
+		case *types.Array:
+			unknown = true
+		}
+	}
+	for i, t := range ts {
+		walk(t, args[i], 0)
+	}
+	told := fmt.Sprint(st.verOld)
+	cur := fmt.Sprint(st.ver)
+	if reads != nil {
+		// the version of exactly the heaps that are read
+		key := ""
+		for _, h := range reads {
+			key += fmt.Sprintf("%s:%d;", h, e.verOf(st, h))
+		}
+		id, ok := e.tokIDs[key]
+		if !ok {
+			id = len(e.tokIDs) + 1
+			e.tokIDs[key] = id
+		}
+		cur = fmt.Sprint(id)
+	}
+	if unknown {
+		return told, cur
+	}
+	if len(conds) == 0 {
+		return told, "0"
+	}
+	return told, "(ite (and " + strings.Join(conds, " ") + " true) 0 " + cur + ")"
+}
+
+// readHeaps: the heaps a read-only function may read (its own loads and those of the readers it calls).
+func (e *Enc) readHeaps(f *ssa.Function) []string {
+	if r, ok := e.readMemo[f]; ok {
+		return r
+	}
+	e.readMemo[f] = nil
+	set := map[string]bool{}
+	unknown := false
+	var visit func(g *ssa.Function, depth int)
+	seen := map[*ssa.Function]bool{}
+	visit = func(g *ssa.Function, depth int) {
+		if g == nil || seen[g] || len(g.Blocks) == 0 {
+			if g != nil && len(g.Blocks) == 0 {
+				unknown = true
+			}
+			return
+		}
+		seen[g] = true
+		for _, b := range g.Blocks {
+			for _, in := range b.Instrs {
+				switch x := in.(type) {
+				case *ssa.UnOp:
+					if x.Op.String() == "*" {
+						for _, h := range e.heapsOfPtr(x.X) {
+							set[h] = true
+						}
+					}
+				case *ssa.Lookup:
+					if m, ok := x.X.Type().Underlying().(*types.Map); ok {
+						d, v, l := e.mapHeaps(m)
+						set[d], set[v], set[l] = true, true, true
+					}
+				case *ssa.Range:
+					if m, ok := x.X.Type().Underlying().(*types.Map); ok {
+						d, v, l := e.mapHeaps(m)
+						set[d], set[v], set[l] = true, true, true
+					}
+				case *ssa.Convert:
+					if sl, ok := x.X.Type().Underlying().(*types.Slice); ok {
+						set[e.elemHeap(sl.Elem())] = true
+					}
+				case *ssa.Call:
+					if bi, ok := x.Call.Value.(*ssa.Builtin); ok {
+						if bi.Name() == "len" {
+							if m, ok := x.Call.Args[0].Type().Underlying().(*types.Map); ok {
+								_, _, l := e.mapHeaps(m)
+								set[l] = true
+							}
+						}
+						continue
+					}
+					if x.Call.IsInvoke() {
+						unknown = true // implementations are not enumerated here
+						continue
+					}
+					if c := x.Call.StaticCallee(); c != nil {
+						if e.w.mine[pkgOf(c)] {
+							visit(c, depth+1)
+						} else {
+							for _, a := range x.Call.Args {
+								if !valueLike(a.Type(), 0) {
+									unknown = true
+								}
+							}
+						}
+					} else {
+						unknown = true
+					}
+				}
+			}
+		}
+	}
+	visit(f, 0)
+	if unknown {
+		e.readMemo[f] = nil
+		return nil
+	}
+	var hs []string
+	for h := range set {
+		hs = append(hs, h)
+	}
+	sort.Strings(hs)
+	if hs == nil {
+		hs = []string{}
+	}
+	e.readMemo[f] = hs
+	return hs
+}
+
+func (e *Enc) ufResultS(fr *Frame, c *ssa.Call, fn string, args []string, sorts []string) {
+	ts := e.resultTypes(c)
 	mk := func(i int, t types.Type) string {
 		name := fmt.Sprintf("%s_%d", fn, i)
 		e.d.decl(name, "("+strings.Join(sorts, " ")+") "+e.d.sortOf(t))
@@ -774,7 +948,7 @@ func (e *Enc) invoke(fr *Frame, st *State, c *ssa.Call, recv string, args []stri
 		// reads the heap but writes nothing: a function of receiver, arguments and the heap version
 		all := append([]string{recv}, args...)
 		vals := append([]ssa.Value{cc.Value}, cc.Args...)
-		e.ufResult(fr, c, fmt.Sprintf("IMv%d_%s_%s", st.ver, typeKey(it), m.Name()), all, vals)
+		e.readerResult(fr, c, "IMR_"+typeKey(it)+"_"+m.Name(), st, all, vals)
 		e.usedTrusted["reader-method "+typeKey(it)+"."+m.Name()] = true
 		return st
 	}
@@ -1149,5 +1323,45 @@ func (e *Enc) readerUF(callee *ssa.Function) bool {
 }
 
 func (e *Enc) readerName(callee *ssa.Function, st *State) string {
-	return fmt.Sprintf("RDv%d_%s", st.ver, san(shortName(callee)))
+	return "RD_" + san(shortName(callee))
+}
+
+// outParams: a dependency function that is handed the address of an object allocated by the current
+// function (json.Unmarshal(data, &v), fmt.Sscan(..., &x), ...) may fill it in: its cells are havocked.
+// (Dependency code is assumed not to write through pointers to pre-existing memory.)
+func (e *Enc) outParams(fr *Frame, st *State, c *ssa.Call) *State {
+	for _, a := range c.Common().Args {
+		v := a
+		if mi, ok := v.(*ssa.MakeInterface); ok {
+			v = mi.X
+		}
+		pt, ok := v.Type().Underlying().(*types.Pointer)
+		if !ok {
+			continue
+		}
+		ref, known := fr.vals[v]
+		if !known || !e.allocTerms[ref] {
+			continue
+		}
+		var hs []string
+		switch u := pt.Elem().Underlying().(type) {
+		case *types.Struct:
+			for i := 0; i < u.NumFields(); i++ {
+				hs = append(hs, e.fieldHeap(pt.Elem(), u, i))
+			}
+		case *types.Array:
+			hs = append(hs, e.elemHeap(u.Elem()))
+		default:
+			hs = append(hs, e.cellHeap(pt.Elem()))
+		}
+		for _, h := range hs {
+			e.n++
+			fn := fmt.Sprintf("HO%d_%s", e.n, h)
+			e.declHeapFn(fn, h)
+			ns := e.newState(sFill, st)
+			ns.heap, ns.loc, ns.fn = h, Loc{ref}, fn
+			st = ns
+		}
+	}
+	return st
 }
